@@ -43,6 +43,7 @@ type SliceV struct {
 
 type IfaceV struct {
 	Tag, Data Term
+	Typ       types.Type // static interface type when known
 }
 
 type MapV struct {
@@ -266,7 +267,7 @@ func zeroValue(t types.Type) Value {
 	case *types.Slice:
 		return &SliceV{TZero, TZero, TZero, TZero, u.Elem()}
 	case *types.Interface:
-		return &IfaceV{TZero, TZero}
+		return &IfaceV{Tag: TZero, Data: TZero, Typ: t}
 	case *types.Struct:
 		sv := &StructV{Typ: t}
 		for i := 0; i < u.NumFields(); i++ {
@@ -351,7 +352,7 @@ func buildValue(t types.Type, get func(l Leaf) Term) Value {
 			return &SliceV{g("ptr"), g("off"), g("len"), g("cap"), u.Elem()}
 		case *types.Interface:
 			g := func(sub string) Term { return get(Leaf{Path: join(prefix, sub), Sort: SInt, Typ: t, Sub: sub}) }
-			return &IfaceV{g("tag"), g("data")}
+			return &IfaceV{Tag: g("tag"), Data: g("data"), Typ: t}
 		case *types.Struct:
 			sv := &StructV{Typ: t}
 			for i := 0; i < u.NumFields(); i++ {
